@@ -327,6 +327,9 @@ pub fn client_case(seed: u64, n: u64, ev: &mut Evidence) {
     }
     let tx1 = rng.u16();
     let idle_bytes = if idle_garbage { hostile_stream(&mut rng, framing, false, tx1).0 } else { vec![] };
+    // a peer that keeps talking: well-formed frames that never match the outstanding request,
+    // spaced closer than the response timeout, for many timeouts in a row
+    let flood = framing == Framing::Mbap && rng.chance(1, 8);
     let streams2 = streams.clone();
     let idle2 = idle_bytes.clone();
     let result = run_paused(|| async move {
@@ -341,6 +344,14 @@ pub fn client_case(seed: u64, n: u64, ev: &mut Evidence) {
                 let k = g.1;
                 g.1 += 1;
                 let Some(s) = streams2.get(k) else { continue };
+                if flood {
+                    let tx = ((f[0] as u16) << 8) | f[1] as u16;
+                    for j in 0..60u16 {
+                        items.push(In::Delay(Duration::from_millis(20)));
+                        items.push(In::Chunk(mbap_frame(tx.wrapping_sub(1 + j), f[6], &[3, 2, 0, j as u8])));
+                    }
+                    continue;
+                }
                 let mut s = s.clone();
                 // half of the time give the hostile bytes the outstanding transaction id
                 if framing == Framing::Mbap && s.len() >= 2 && f.len() >= 2 && k % 2 == 0 {
@@ -397,6 +408,7 @@ pub fn client_case(seed: u64, n: u64, ev: &mut Evidence) {
             let _ = tokio::time::timeout(Duration::from_secs(30), s.wait()).await;
         }
         settle().await;
+        let all_done_after = start.elapsed();
         // the handle must remain usable: a sentinel request must complete (on the first
         // session if it survived, otherwise on the second connection)
         let sentinel = Slot::new(start, seq.clone());
@@ -411,7 +423,7 @@ pub fn client_case(seed: u64, n: u64, ev: &mut Evidence) {
         let spin = handle.with(|s| s.spin_detected);
         channel.shutdown().await.ok();
         let end = tokio::time::timeout(Duration::from_secs(3600), task).await;
-        (counts, classes, sres, spin, end.is_ok(), end.ok().and_then(|r| r.ok()))
+        (counts, classes, sres, spin, end.is_ok(), end.ok().and_then(|r| r.ok()), all_done_after)
     });
     ev.eval();
     ev.count("client_inputs", 1);
@@ -425,7 +437,19 @@ pub fn client_case(seed: u64, n: u64, ev: &mut Evidence) {
                 rep,
             );
         }
-        Ok((counts, classes, sres, spin, ended, ends)) => {
+        Ok((counts, classes, sres, spin, ended, ends, all_done_after)) => {
+            // bounded progress: nreq requests with a 50 ms timeout are all resolved within
+            // nreq x (50 ms + margin) of virtual time, whatever the peer keeps sending
+            if counts.iter().all(|c| *c == 1) && all_done_after > Duration::from_millis(nreq as u64 * 60 + 20) {
+                ev.violation(
+                    format!("client_request_outlived_its_timeout:{}", framing.name()),
+                    format!("{nreq} request(s) with a 50 ms timeout took {all_done_after:?} of virtual time to resolve while the peer kept sending frames (flood={flood})"),
+                    rep.clone(),
+                );
+            }
+            if flood {
+                ev.count("client_floods", 1);
+            }
             for c in &classes {
                 ev.class(format!("client|{}|decode{}|{}|{}", framing.name(), level, c, tags[0]));
             }
